@@ -6,6 +6,7 @@ pub mod c05;
 pub mod c06;
 pub mod c07;
 pub mod c08;
+pub mod c10;
 pub mod c11;
 pub mod c13;
 pub mod c17;
@@ -81,6 +82,11 @@ pub fn property(id: &str) -> Option<PropertyRun> {
             parts: vec![Box::new(Campaign(problems::C12)), Box::new(Campaign(problems::Preamble))],
             assumptions: vec!["quantifiers over $int, general and symbol are sampled on windows, as the property states".into(), "a constant x__s is read as the symbol x when x is a 0-ary predicate of the problem (anthem's documented renaming)".into()],
         },
+        "C10" => PropertyRun {
+            id: id.into(),
+            parts: vec![Box::new(Campaign(c10::C10))],
+            assumptions: vec!["schedules are explored through generated per-problem delays and instance counts under the OS scheduler; the harness does not own the interleaving".into(), "a prover run counts as Theorem iff it printed `SZS status Theorem` in valid UTF-8 output (the exit status is ignored, as the code documents)".into()],
+        },
         "C11" => PropertyRun {
             id: id.into(),
             parts: vec![Box::new(Campaign(c11::Analyses)), Box::new(Campaign(c11::Enforcement))],
@@ -110,4 +116,4 @@ pub fn property(id: &str) -> Option<PropertyRun> {
     })
 }
 
-pub const ALL: &[&str] = &["C01", "C02", "C03", "C04", "C05", "C06", "C07", "C08", "C09", "C11", "C12", "C13", "C14", "C15", "C17", "C18", "C19"];
+pub const ALL: &[&str] = &["C01", "C02", "C03", "C04", "C05", "C06", "C07", "C08", "C09", "C10", "C11", "C12", "C13", "C14", "C15", "C17", "C18", "C19"];
